@@ -37,11 +37,11 @@ var c16ValRe = regexp.MustCompile(`^[A-Za-z0-9_.${}-]*$`)
 
 func init() {
 	register(&Prop{ID: "C16", Run: c16Run,
-		Rule: "key sets built from a pool of 14 path-safe segments, several of which are proper string prefixes of others (a, ab, abc, a1, a-b, k, k1 …; the same pool at every level, so that sibling segments related by string prefix but not by dotted prefix are frequent), 1-4 segments per key, 0-8 keys; three streams: prefix-free sets (conflicting keys removed), sets with deliberately added dotted prefixes / extensions of present keys, unconstrained sets; values from a pool of strings over [A-Za-z0-9_.-] incl. the empty string, and in one case out of three also values over [A-Za-z0-9_.${}-] shaped like placeholder expressions: ${key} naming the own key, another key of the set, an undefined key, rings of keys naming each other, nested and repeated ${…}, unclosed ${, and stray $ { } characters; line order of the rendered text shuffled. Kind dots (repeated-decode clause only, 'whatever the keys'): such a set plus 1-3 keys with a leading / trailing / doubled separator (k. .k .k. a..b ..k k.. and the keys . .. ...), most of them next to the same key without the stray separator and with a different value; 50 decodes through FromReader (observed through Children and AsMap, not Flatten) and 50 through props.DecoderFn alone must give one result. Kind big (direct predicates only, a fixed handful per run): prefix-free sets described compactly as blocks of pairs b<i>.s<j mod 41>.k<j> = <j>_<i>_padding with a common value length, rendered text between 64 KiB and 6 MiB per run (one below 1 MiB, one of 1.1-2.6 MiB and one of 4.2-6 MiB with tens of thousands of ordinary pairs, one with a few lines longer than 64 KiB each), decoded through FromReader from a strings.Reader, from a plain io.Reader handing out 4093-byte pieces and with the provider's decoder, through props.DecoderFn alone, FromProperties, Unflatten, and written by both encoders and read back - every result compared pair by pair with the set. Thorough tier adds all 128 subsets of {a, b, a.b, a.c, a.b.c, b.a, a.b.c.d} and of {a.b, a.b.x, a.bc, a-b.x, a1, ab.x, abc} in two line orders. A case is non-trivial when it has at least two keys and at least one key with two or more segments; distinct = distinct canonical case JSON (hash).",
+		Rule: "key sets built from a pool of 14 path-safe segments, several of which are proper string prefixes of others (a, ab, abc, a1, a-b, k, k1 …; the same pool at every level, so that sibling segments related by string prefix but not by dotted prefix are frequent), 1-4 segments per key, 0-8 keys; three streams: prefix-free sets (conflicting keys removed), sets with deliberately added dotted prefixes / extensions of present keys, unconstrained sets; values from a pool of strings over [A-Za-z0-9_.-] incl. the empty string, and in one case out of three also values over [A-Za-z0-9_.${}-] shaped like placeholder expressions: ${key} naming the own key, another key of the set, an undefined key, rings of keys naming each other, nested and repeated ${…}, unclosed ${, and stray $ { } characters; line order of the rendered text shuffled. Kind dots (repeated-decode clause only, 'whatever the keys'): such a set plus 1-3 keys with a leading / trailing / doubled separator (k. .k .k. a..b ..k k.. and the keys . .. ...), most of them next to the same key without the stray separator and with a different value; 50 decodes through FromReader (observed through Children and AsMap, not Flatten) and 50 through props.DecoderFn alone must give one result. Kind big (direct predicates only, a fixed handful per run): prefix-free sets described compactly as blocks of pairs b<i>.s<j mod 41>.k<j> = <j>_<i>_padding with a common value length, rendered text between 64 KiB and 6 MiB per run (one below 1 MiB, one of 1.1-2.6 MiB and one of 4.2-6 MiB with tens of thousands of ordinary pairs, one with a few lines longer than 64 KiB each), decoded through FromReader from a strings.Reader, from a plain io.Reader handing out 4093-byte pieces and with the provider's decoder, through props.DecoderFn alone, FromProperties, Unflatten, and written by both encoders and read back - every result compared pair by pair with the set. Stream deep (kind kv): key sets shaped like a deep tree - a first key of 4-10 segments and 1-7 further keys, each keeping a prefix of an earlier key (often all but its last 1-3 segments) and continuing with 1-4 segments of its own, so that containers at depth 3, 5, 6, 7 and 9 have several sibling containers and leaves; 3 in 4 prefix-free. Kind edge (direct predicates only, about 90 per run): texts in which an ASCII, 2-, 3- or 4-byte UTF-8 character of a plain value (non-ASCII letters and symbols need no escaping) starts 0 ... len+2 bytes before byte offset 512 / 4 KiB / 64 KiB (every placement: starting at, lying across, ending at the offset, followed by the line end at it), lies across 1 MiB, every other power of two from 256 B to 512 KiB, 4093, 8186, 65521 and a few round numbers; with nothing after that pair (total text size = offset -1 / +0 / +1) or further pairs after it; filler values with or without non-ASCII characters; same predicates as kind big. History: in kinds kv / big / edge every decode is preceded by a decode of an unrelated text whose reader fails after 0 / 3 / 700 bytes and every encode by encodes of an unrelated map / document whose writer fails after 0 / 3 / 17 / 40 bytes; Flatten is called twice on one document and the earlier result is read again after the later call. Thorough tier adds all 128 subsets of {a, b, a.b, a.c, a.b.c, b.a, a.b.c.d} and of {a.b, a.b.x, a.bc, a-b.x, a1, ab.x, abc} in two line orders. A case is non-trivial when it has at least two keys and at least one key with two or more segments; distinct = distinct canonical case JSON (hash).",
 		Assumptions: []string{
 			"magiconair/properties agrees with the reference k=v line parser (Props.parseSimple) on keys over [A-Za-z0-9_.-] and values over [A-Za-z0-9_.${}-]* — raw values as returned by Map(), whatever its ${…} expansion self-check says (validated by the corr:C16.parse comparison on every case, not proved)",
 			"key segments are non-empty and over [A-Za-z0-9_-] (no segment ends in an index group, so AddValueAt treats every segment as a plain child name); empty segments (stray separators) occur only in the cases of kind dots, on which nothing but the repeated-decode clause is evaluated",
-			"values are plain strings that need no escaping in the properties format"}})
+			"values are plain strings that need no escaping in the properties format; kinds kv / dots / big keep them over [A-Za-z0-9_.${}-], kind edge adds non-ASCII letters and symbols (no white space, control or separator characters), written as UTF-8"}})
 	evals["C16"] = c16Eval
 	shrinkers["C16"] = c16Shrink
 }
@@ -103,6 +103,60 @@ func c16Key(r *rand.Rand) string {
 	return strings.Join(parts, ".")
 }
 
+// c16GenDeep: a key set shaped like a deep tree — keys of up to 10 segments that fork at every depth
+// (each new key keeps a prefix of an earlier one and continues with 1-4 segments of its own, often
+// just one: sibling leaves and sibling containers below containers at depth 3, 5, 6, 7, 9), dotted
+// prefixes removed (mode 0) or kept (mode 1).
+func c16GenDeep(r *rand.Rand, mode int) c16KV {
+	seg := func() string { return c16Segs[r.Intn(3+r.Intn(len(c16Segs)-2))] }
+	first := make([]string, pick(r, []int{4, 5, 5, 6, 7, 8, 9, 10}))
+	for i := range first {
+		first[i] = seg()
+	}
+	keys := [][]string{first}
+	for n := 1 + r.Intn(7); n > 0; n-- {
+		base := keys[r.Intn(len(keys))]
+		keep := r.Intn(len(base))
+		if r.Intn(2) == 0 && len(base) >= 3 { // fork close to the end of the earlier key
+			keep = len(base) - 1 - r.Intn(3)
+		}
+		k := append([]string{}, base[:keep]...)
+		for m := 1 + r.Intn(1+r.Intn(4)); m > 0 && len(k) < 10; m-- {
+			k = append(k, seg())
+		}
+		keys = append(keys, k)
+	}
+	set := map[string]bool{}
+	var flat []string
+	for _, k := range keys {
+		if s := strings.Join(k, "."); !set[s] {
+			set[s] = true
+			flat = append(flat, s)
+		}
+	}
+	if mode == 0 {
+		var keep []string
+		for _, a := range flat {
+			bad := false
+			for _, b := range flat {
+				if c16IsPrefix(a, b) {
+					bad = true
+				}
+			}
+			if !bad {
+				keep = append(keep, a)
+			}
+		}
+		flat = keep
+	}
+	r.Shuffle(len(flat), func(i, j int) { flat[i], flat[j] = flat[j], flat[i] })
+	out := c16KV{Pairs: [][2]string{}}
+	for _, k := range flat {
+		out.Pairs = append(out.Pairs, [2]string{k, c16Vals[r.Intn(len(c16Vals))]})
+	}
+	return out
+}
+
 func c16IsPrefix(a, b string) bool { // a is a proper dotted prefix of b
 	return len(a) < len(b) && strings.HasPrefix(b, a+".")
 }
@@ -113,6 +167,27 @@ func c16SiblingPrefix(sorted []string) bool {
 	for i := 0; i+1 < len(sorted); i++ {
 		j := strings.LastIndex(sorted[i], ".")
 		if j > 0 && strings.HasPrefix(sorted[i+1], sorted[i][:j]) && !strings.HasPrefix(sorted[i+1], sorted[i][:j+1]) {
+			return true
+		}
+	}
+	return false
+}
+
+// c16DeepFork: some container at depth >= 3 has at least two children that are containers.
+func c16DeepFork(keys []string) bool {
+	kids := map[string]map[string]bool{}
+	for _, k := range keys {
+		segs := strings.Split(k, ".")
+		for d := 3; d+1 < len(segs); d++ {
+			p := strings.Join(segs[:d], ".")
+			if kids[p] == nil {
+				kids[p] = map[string]bool{}
+			}
+			kids[p][segs[d]] = true
+		}
+	}
+	for _, m := range kids {
+		if len(m) >= 2 {
 			return true
 		}
 	}
@@ -199,15 +274,15 @@ func c16Gen(r *rand.Rand, mode int) c16KV {
 
 func c16Run(c *Ctx) {
 	r := c.Rng
-	for i := 0; i < c.N(1500); i++ {
+	for i := 0; i < c.N(1300); i++ {
 		c.Tick()
 		c.Do("kv", c16Gen(r, 0))
 	}
-	for i := 0; i < c.N(1500); i++ {
+	for i := 0; i < c.N(1300); i++ {
 		c.Tick()
 		c.Do("kv", c16Gen(r, 1))
 	}
-	for i := 0; i < c.N(500); i++ {
+	for i := 0; i < c.N(400); i++ {
 		c.Tick()
 		c.Do("kv", c16Gen(r, 2))
 	}
@@ -215,6 +290,15 @@ func c16Run(c *Ctx) {
 		c.Tick()
 		c.Do("dots", c16GenDots(r))
 	}
+	for i := 0; i < c.N(300); i++ {
+		c.Tick()
+		mode := 0 // 3 in 4 prefix-free
+		if r.Intn(4) == 0 {
+			mode = 1
+		}
+		c.Do("kv", c16GenDeep(r, mode))
+	}
+	c16RunEdge(c)
 	c16RunBig(c)
 	if c.Thorough() && !c.searchMode {
 		for _, u := range [][]string{
@@ -308,6 +392,9 @@ func c16Eval(c *Ctx, kind string, raw []byte) {
 	case "big":
 		c16EvalBig(c, raw)
 		return
+	case "edge":
+		c16EvalEdge(c, raw)
+		return
 	default:
 		return
 	}
@@ -343,6 +430,14 @@ func c16Eval(c *Ctx, kind string, raw []byte) {
 		c.Dist("keys:conflicting")
 	}
 	c.Dist(fmt.Sprintf("keys:n=%d", len(keys)))
+	maxSegs := 0
+	for _, k := range keys {
+		maxSegs = max(maxSegs, strings.Count(k, ".")+1)
+	}
+	c.Dist(fmt.Sprintf("keys:longest=%d-segments", maxSegs))
+	if c16DeepFork(keys) {
+		c.Dist("keys:two-sibling-containers-at-depth>=3")
+	}
 	if c16SiblingPrefix(keys) {
 		c.Dist("keys:sibling-segment-is-string-prefix-of-next")
 	}
@@ -365,11 +460,16 @@ func c16Eval(c *Ctx, kind string, raw []byte) {
 		return m
 	}
 	want := canon(c16FlatWire(kvAny()))
+	wantSig := c16FlatSig(kv, func(v string) any { return v })
+	leafVal := func(l dom.Leaf) any { return l.Value() }
+	anyVal := func(v any) any { return v }
 
 	var readerW, readerFlat, propsW, propsFlat, unflW, unflFlat, embW W
 	var loadPairs, encPairs, domEncPairs []any
 	out, txt := guard(func() {
-		// --- decoding the text, 50 times, through FromReader with props.DecoderFn
+		// --- decoding the text, 50 times, through FromReader with props.DecoderFn (after a decode of an
+		// unrelated text whose reader failed part-way)
+		_, _ = dom.Builder().FromReader(&c16FailReader{s: c16DecoyText, n: []int{0, 3, 700}[len(text)%3]}, props.DecoderFn)
 		first := ""
 		for i := 0; i < c16Repeats; i++ {
 			dec := props.DecoderFn
@@ -380,12 +480,18 @@ func c16Eval(c *Ctx, kind string, raw []byte) {
 			if !c.Direct("decode-no-error", err == nil, fmt.Sprint(err)) {
 				return
 			}
-			w := nodeWire(cb)
-			s := mustJSON(w)
+			// (runs are compared by signature, see c16_sig.go; the wire form is built for the first run
+			// and for a run that differs)
+			s := c16NodeSig(cb)
 			if i == 0 {
-				first, readerW, readerFlat = s, w, flattenWire(cb)
+				first, readerW, readerFlat = s, nodeWire(cb), flattenWire(cb)
+				// flattening the same document a second time shows the same leaves
+				if again := flattenWire(cb); prefixFree && canon(again) != canon(readerFlat) {
+					c.Direct("flatten(FromReader(render(kv)))==kv", false, map[string]any{"flatten": again, "flatten-called": "a second time on the same document", "first-call": readerFlat})
+				}
 			}
-			if !c.Direct("50-decodes-one-result", s == first, map[string]any{"run": i, "first": json.RawMessage(first), "this": json.RawMessage(s)}) {
+			if s != first {
+				c.Direct("50-decodes-one-result", false, map[string]any{"run": i, "first": readerW, "this": nodeWire(cb)})
 				return
 			}
 		}
@@ -394,39 +500,43 @@ func c16Eval(c *Ctx, kind string, raw []byte) {
 		}
 		// --- FromProperties
 		firstP := ""
+		var firstPW W
 		stable := true
 		for i := 0; i < c16Repeats; i++ {
 			cb := dom.Builder().FromProperties(kvAny())
-			w := nodeWire(cb)
-			s := mustJSON(w)
+			s := c16NodeSig(cb)
 			if i == 0 {
-				firstP, propsW, propsFlat = s, w, flattenWire(cb)
+				firstP, firstPW, propsW, propsFlat = s, nodeWire(cb), nodeWire(cb), flattenWire(cb)
 			} else if s != firstP {
 				stable = false
-				propsW = map[string]any{"unstable": []any{json.RawMessage(firstP), json.RawMessage(s)}}
+				propsW = map[string]any{"unstable": []any{firstPW, nodeWire(cb)}}
 			}
-			if prefixFree {
-				if !c.Direct("flatten(FromProperties(kv))==kv", canon(flattenWire(cb)) == want, map[string]any{"flatten": flattenWire(cb), "kv": json.RawMessage(want)}) {
+			if prefixFree && c16FlatSig(cb.Flatten(), leafVal) != wantSig {
+				if fw := flattenWire(cb); canon(fw) != want {
+					c.Direct("flatten(FromProperties(kv))==kv", false, map[string]any{"flatten": fw, "kv": json.RawMessage(want)})
 					break
 				}
 			}
 		}
 		// --- utils.Unflatten
 		firstU := ""
+		var firstUW W
 		for i := 0; i < c16Repeats; i++ {
 			u := utils.Unflatten(kvAny())
-			w := plainWire(u)
-			s := mustJSON(w)
+			var usb strings.Builder
+			c16PlainSig(&usb, u)
+			s := usb.String()
 			fl := map[string]any{}
 			c16FlattenPlain(u, "", fl)
 			if i == 0 {
-				firstU, unflW, unflFlat = s, w, c16FlatWire(fl)
+				firstU, firstUW, unflW, unflFlat = s, plainWire(u), plainWire(u), c16FlatWire(fl)
 			} else if s != firstU {
 				stable = false
-				unflW = map[string]any{"unstable": []any{json.RawMessage(firstU), json.RawMessage(s)}}
+				unflW = map[string]any{"unstable": []any{firstUW, plainWire(u)}}
 			}
-			if prefixFree {
-				if !c.Direct("flattenPlain(Unflatten(kv))==kv", canon(c16FlatWire(fl)) == want, map[string]any{"flatten": c16FlatWire(fl), "kv": json.RawMessage(want)}) {
+			if prefixFree && c16FlatSig(fl, anyVal) != wantSig {
+				if fw := c16FlatWire(fl); canon(fw) != want {
+					c.Direct("flattenPlain(Unflatten(kv))==kv", false, map[string]any{"flatten": fw, "kv": json.RawMessage(want)})
 					break
 				}
 			}
@@ -440,6 +550,7 @@ func c16Eval(c *Ctx, kind string, raw []byte) {
 		}
 		// --- k8s.DecodeEmbeddedProps on a ConfigMap holding the same pairs
 		firstE := ""
+		var firstEW W
 		for i := 0; i < 20; i++ {
 			m, err := k8s.ManifestFromBytes([]byte("kind: ConfigMap\n"))
 			if err != nil {
@@ -452,13 +563,12 @@ func c16Eval(c *Ctx, kind string, raw []byte) {
 			if err != nil {
 				panic(err)
 			}
-			w := nodeWire(cb)
-			s := mustJSON(w)
+			s := c16NodeSig(cb)
 			if i == 0 {
-				firstE, embW = s, w
+				firstE, firstEW, embW = s, nodeWire(cb), nodeWire(cb)
 			} else if s != firstE {
 				stable = false
-				embW = map[string]any{"unstable": []any{json.RawMessage(firstE), json.RawMessage(s)}}
+				embW = map[string]any{"unstable": []any{firstEW, nodeWire(cb)}}
 			}
 		}
 		if !stable {
@@ -476,11 +586,7 @@ func c16Eval(c *Ctx, kind string, raw []byte) {
 		// --- encoders: EncoderFn (directly and through the provider), DomEncoderFn
 		// An earlier encode of an unrelated map whose writer failed must leave no trace in a later
 		// encode (the round-trip clause holds for every history of calls, not only the first).
-		decoy := map[string]interface{}{"zz_decoy.user": "u", "zz_decoy.password": "p"}
-		_ = props.EncoderFn(&failAfterWriter{n: 3}, decoy)
-		decoyDom := dom.Builder().Container()
-		decoyDom.AddValue("zz_decoy.user", dom.LeafNode("u")).AddValue("zz_decoy.password", dom.LeafNode("p"))
-		_ = props.DomEncoderFn(&failAfterWriter{n: 3}, decoyDom)
+		c16EncoderDecoys(len(text))
 		for i, enc := range []dom.EncoderFunc{props.EncoderFn, common.DefaultFileEncoderProvider("x.properties")} {
 			var buf bytes.Buffer
 			err := enc(&buf, kvAny())
@@ -555,6 +661,9 @@ func c16Eval(c *Ctx, kind string, raw []byte) {
 func c16Shrink(kind string, raw []byte) [][]byte {
 	if kind == "big" {
 		return c16ShrinkBig(raw)
+	}
+	if kind == "edge" {
+		return c16ShrinkEdge(raw)
 	}
 	var p c16KV
 	if json.Unmarshal(raw, &p) != nil {
